@@ -29,6 +29,9 @@ pub enum JReader {
     Str,
     /// serde_json::from_reader over BufReader<FaultyReader> (large reads, so short reads fire)
     Buffered,
+    /// text -> serde_json::Value -> serde_json::from_value: keys arrive as owned Strings in
+    /// sorted order, duplicates have already been merged by the Value
+    Value,
 }
 
 #[derive(Clone, Debug, PartialEq, Serialize, Deserialize)]
@@ -59,6 +62,9 @@ pub struct JPlan {
     /// one stored bit is flipped: (byte offset, bit)
     pub flip: Option<(u32, u8)>,
     pub retry: bool,
+    /// read through `Deserialize::deserialize_in_place` into an existing (different) value
+    #[serde(default)]
+    pub in_place: bool,
 }
 
 impl JPlan {
@@ -81,6 +87,7 @@ impl JPlan {
             trunc_at: None,
             flip: None,
             retry: false,
+            in_place: false,
         }
     }
 }
@@ -452,6 +459,32 @@ fn panic_msg(p: Box<dyn std::any::Any + Send>) -> String {
     }
 }
 
+/// Same as `read_json`, but through `deserialize_in_place` into a pre-existing value.
+pub fn read_json_in_place<T: Subject>(bytes: &[u8], plan: &JPlan, stats: &mut (u32, bool, u32, u32)) -> Result<T, String> {
+    let r = catch_unwind(AssertUnwindSafe(|| {
+        let mut place: T = stale_value::<T>();
+        match plan.reader {
+            JReader::Reader | JReader::Buffered => {
+                let mut rd = FaultyReader::new(bytes, plan);
+                let r = {
+                    let mut de = serde_json::Deserializer::from_reader(&mut rd);
+                    T::deserialize_in_place(&mut de, &mut place).and_then(|()| de.end()).map_err(|e| e.to_string())
+                };
+                *stats = (rd.calls, rd.err_fired, rd.eintr_fired, rd.short_fired);
+                r.map(|()| place)
+            }
+            _ => {
+                let mut de = serde_json::Deserializer::from_slice(bytes);
+                T::deserialize_in_place(&mut de, &mut place).and_then(|()| de.end()).map_err(|e| e.to_string()).map(|()| place)
+            }
+        }
+    }));
+    match r {
+        Ok(x) => x,
+        Err(p) => Err(format!("PANIC: {}", panic_msg(p))),
+    }
+}
+
 pub fn read_json<T: DeserializeOwned>(bytes: &[u8], plan: &JPlan, stats: &mut (u32, bool, u32, u32)) -> Result<T, String> {
     let r = catch_unwind(AssertUnwindSafe(|| match plan.reader {
         JReader::Reader => {
@@ -466,6 +499,9 @@ pub fn read_json<T: DeserializeOwned>(bytes: &[u8], plan: &JPlan, stats: &mut (u
             *stats = (rd.calls, rd.err_fired, rd.eintr_fired, rd.short_fired);
             r
         }
+        JReader::Value => serde_json::from_slice::<serde_json::Value>(bytes)
+            .and_then(serde_json::from_value::<T>)
+            .map_err(|e| e.to_string()),
         JReader::Slice => serde_json::from_slice::<T>(bytes).map_err(|e| e.to_string()),
         JReader::Str => match std::str::from_utf8(bytes) {
             Ok(s) => serde_json::from_str::<T>(s).map_err(|e| e.to_string()),
@@ -731,7 +767,8 @@ pub fn run_json<T: Subject>(plan: &JPlan, opts: RunOpts) -> Outcome {
             }
         }
         let mut rstats = (0u32, false, 0u32, 0u32);
-        let res: Result<T, String> = read_json(&bytes, plan, &mut rstats);
+        let res: Result<T, String> =
+            if plan.in_place { read_json_in_place(&bytes, plan, &mut rstats) } else { read_json(&bytes, plan, &mut rstats) };
         out.rsteps = rstats.0.max(1);
         out.read_ok = Some(res.is_ok());
         out.jstats.r_eintr += rstats.2;
@@ -808,6 +845,7 @@ pub fn run_json<T: Subject>(plan: &JPlan, opts: RunOpts) -> Outcome {
                 err_fired,
                 err_before_all: err_before_all && root_is_record,
                 keyed: true,
+                weak_keys: false,
                 is_dec,
                 patched,
             };
@@ -858,6 +896,7 @@ pub fn run_json<T: Subject>(plan: &JPlan, opts: RunOpts) -> Outcome {
         sg.u64(plan.flip.map(|(b, bit)| (b as u64) << 3 | bit as u64).unwrap_or(u64::MAX));
         sg.u64(plan.reader as u64);
         sg.u64(plan.escape_keys as u64);
+        sg.u64(plan.in_place as u64);
         out.sig = sg.finish();
     }
 
